@@ -11,6 +11,7 @@ import (
 	"runtime"
 	"strconv"
 	"sync"
+	"sync/atomic"
 	"time"
 
 	"github.com/irai/packet"
@@ -235,6 +236,51 @@ func (c *ctl) countSince(from int, kind string) int {
 		}
 	}
 	return n
+}
+
+// countSinceB1 counts the events of that kind whose first flag is set.
+func (c *ctl) countSinceB1(from int, kind string) int {
+	c.mu.Lock()
+	defer c.mu.Unlock()
+	n := 0
+	for _, e := range c.events[from:] {
+		if e.kind == kind && e.b1 {
+			n++
+		}
+	}
+	return n
+}
+
+// concurrently runs f in n goroutines released together and joins them; returns how many returned true.
+// While they run *stress is positive.
+func concurrently(n int, stress *int32, f func() bool) int {
+	var wg sync.WaitGroup
+	var bad int32
+	gate := make(chan struct{})
+	atomic.AddInt32(stress, 1)
+	for i := 0; i < n; i++ {
+		wg.Add(1)
+		go func() {
+			defer wg.Done()
+			<-gate
+			if f() {
+				atomic.AddInt32(&bad, 1)
+			}
+		}()
+	}
+	runtime.Gosched()
+	close(gate)
+	wg.Wait()
+	atomic.AddInt32(stress, -1)
+	return int(bad)
+}
+
+// stall is called from the event sink under the handler mutex: during a stress step it holds the critical
+// section open for a moment, so that calls which already passed an earlier (separate) check pile up behind it.
+func stall(stress *int32) {
+	if atomic.LoadInt32(stress) > 0 {
+		time.Sleep(150 * time.Microsecond)
+	}
 }
 
 // release lets a loop parked at a gate continue.
